@@ -17,7 +17,7 @@
 From Coq Require Import ZArith QArith List Bool Permutation.
 From DV Require Import Model.PyPrims Model.Tree Model.C17Model.
 From DV Require Import Proofs.C17Ages Proofs.C17AgesThm Proofs.C17Depth Proofs.C17Stats Proofs.C17Perm.
-From DV Require Import Proofs.C17Gamma Proofs.C17Fix Proofs.C17Extra.
+From DV Require Import Proofs.C17Gamma Proofs.C17Fix Proofs.C17Extra Proofs.C17GammaPrec.
 From DV Require Import Model.C17Prims Gen.Ages Proofs.C17GenLib Proofs.C17GenStats Proofs.C17GenDepth Proofs.C17GenAges.
 From DV Require Import Proofs.C17GenSetLen Proofs.C17GenGamma.
 Import ListNotations.
@@ -534,3 +534,32 @@ Theorem gen_pybus_harvey_gamma_eq : forall w pv t st,
   end.
 Proof. exact g_gamma_eq_l. Qed.
 Print Assumptions gen_pybus_harvey_gamma_eq.
+
+(* ---------------------------------------------------------------------------------------------- *)
+(* The precision handed to the gamma entry point (treemeasure.pybus_harvey_gamma(tree, prec) and the
+   deprecated Tree.pybus_harvey_gamma(prec), which passes it on) on a tree without ages:
+   - a value that disables the check (None, False, negative: check_disabled_values) never yields an
+     UltrametricityError (nor any other error from the age computation);
+   - every other value p - the falsy 0 and 0.0 included, check_prec (PNum 0) = Some 0 - is an exact bound: no
+     error from the age computation iff every non-first child path is within p of the first-child path, and an
+     error is an UltrametricityError raised at a node with two tip paths differing by more than p.
+   (gen_pybus_harvey_gamma_eq ties g_pybus_harvey_gamma, recompiled from the source on every run, to this
+   pybus_harvey_gamma for every prec value.) *)
+Theorem gamma_prec_honoured : forall pv t,
+  (check_prec pv = None -> forall e, pybus_harvey_gamma pv t <> GAgeErr e) /\
+  (forall p, check_prec pv = Some p ->
+     ((forall e, pybus_harvey_gamma pv t <> GAgeErr e) <->
+      (forall v, In v (preorder t) -> forall k, In k (tl (t_kids v)) -> Z.abs (fp v - (fp k + elen k)) <= p)) /\
+     (forall e, pybus_harvey_gamma pv t = GAgeErr e ->
+        e = Ultra /\ exists v d1 d2, In v (preorder t) /\ In d1 (tipdists v) /\ In d2 (tipdists v) /\ Z.abs (d1 - d2) > p)).
+Proof. exact gamma_prec_honoured_l. Qed.
+Print Assumptions gamma_prec_honoured.
+
+Theorem gamma_prec_examples :
+  pybus_harvey_gamma (PNum 0) gx_nearly = GAgeErr Ultra /\
+  (exists p, pybus_harvey_gamma (PNum 10995116) gx_nearly = GOk p) /\
+  (exists p, pybus_harvey_gamma PFalse gx_crooked = GOk p) /\
+  (exists p, pybus_harvey_gamma PNone gx_crooked = GOk p) /\
+  pybus_harvey_gamma (PNum 0) gx_crooked = GAgeErr Ultra.
+Proof. exact gamma_prec_examples_l. Qed.
+Print Assumptions gamma_prec_examples.
